@@ -100,6 +100,7 @@ class Auto:
         self.mult: Dict[Tuple[int, int], int] = {}
         self.approx: List[str] = []
         self.loops: List[Tuple[Set[int], bool]] = []  # (positions of a starred body, body nullable)
+        self._groups: Dict[int, list] = {}
         try:
             tree = sre_parse.parse(pattern, flags)
         except re.error as e:
@@ -156,7 +157,14 @@ class Auto:
             p = self._new(charset(op, av))
             return (False, {p: FE}, {p: FE}, FE)
         if op == sre_c.SUBPATTERN:
+            if av[0] is not None:
+                self._groups[av[0]] = list(av[3])
             return self._seq(list(av[3]))
+        if op == sre_c.GROUPREF and av in self._groups:
+            # a back-reference matches what the group matched: over-approximated by anything the group can match
+            # (the language is widened, never narrowed; noted in `approx`)
+            self.approx.append(f"back-reference to group {av} widened to the group's language")
+            return self._seq(self._groups[av])
         if op == sre_c.BRANCH:
             rs = [self._seq(list(alt)) for alt in av[1]]
             first: Dict[int, FrozenSet[str]] = {}
